@@ -150,8 +150,11 @@ def rule_L6(ctx):
             got[k.arg] = ev.ev(k.value)
         start = A("obj.loop_start") - C(1) - A("obj.loop_length_coarse")
         conds = path_conds_struct(ctx, le, p)
+        mx = A("max(" + ",".join(sorted([start.key(), "0"])) + ")")
         if got.get("loop_start") == C(0):
             ok = cond_taken(conds, start, "<")
+        elif got.get("loop_start") == mx:
+            ok = True
         else:
             ok = got.get("loop_start") == start and cond_taken(conds, start, ">=")
         ctx.ob("L6", call, "LoopEntry.loop_start = loop_at - 1 - coarse length, clamped at 0", ok, "" if ok else f"{got.get('loop_start')}", inst=f"LoopEntry.loop_start:{p.cond_key()[:60]}")
@@ -205,12 +208,25 @@ def rule_L6(ctx):
     # VelocityZone(**sanitize_container(zone), **aux)
     ka = ctx.fn(AK + "keygroup.py", "KeygroupAdapter._decode", "L6")
     vz = [c for c in own_nodes(ka) if isinstance(c, ast.Call) and isinstance(c.func, ast.Name) and c.func.id == "VelocityZone"]
-    ok = len(vz) == 1 and sorted(norm(k.value) for k in vz[0].keywords if k.arg is None) == ["sanitize_container(zone_container)", "zone_aux_attribs"]
-    ctx.ob("L6", vz[0] if vz else ka, "each velocity zone is built from its own record plus the per-zone auxiliary values of the same index", ok, "", inst="VelocityZone")
-    dc = [n for n in own_nodes(ka) if isinstance(n, ast.DictComp) and "container[k][i]" in norm(n)]
-    fr = [n for n in own_nodes(ka) if isinstance(n, ast.For) and norm(n.iter) == "enumerate(container.velocity_zones)"]
-    ok = len(dc) == 1 and len(fr) == 1 and norm(fr[0].target) == "(i, zone_container)"
-    ctx.ob("L6", ka, "zone i takes aux values [i] (enumerate over the stored zones, in order)", ok, "", inst="zone-index")
+    # the zones are built (for-loop or comprehension) by enumerating the stored zones; zone i gets its own record and aux[k][i]
+    its = [n for n in own_nodes(ka) if isinstance(n, (ast.For, ast.comprehension)) and norm(n.iter) == "enumerate(container.velocity_zones)"]
+    ok = len(vz) == 1 and len(its) == 1 and isinstance(its[0].target, ast.Tuple) and len(its[0].target.elts) == 2
+    det = "VelocityZone construction over enumerate(container.velocity_zones) not found"
+    if ok:
+        iv, zv = norm(its[0].target.elts[0]), norm(its[0].target.elts[1])
+        from .sem import canon_expr
+        stars = sorted(" ".join(ast.unparse(k.value).split()) for k in vz[0].keywords if k.arg is None)
+        resolved = []
+        for k in vz[0].keywords:
+            if k.arg is None:
+                v = k.value
+                if isinstance(v, ast.Name):
+                    d = [a for a in own_nodes(ka) if isinstance(a, ast.Assign) and norm(a.targets[0]) == v.id]
+                    v = d[0].value if len(d) == 1 else v
+                resolved.append(" ".join(ast.unparse(v).split()))
+        ok = sorted(resolved) == sorted([f"sanitize_container({zv})", "{k: container[k][" + iv + "] for k in zone_aux_attrib_names}"])
+        det = "" if ok else f"zone is built from {sorted(resolved)}"
+    ctx.ob("L6", vz[0] if vz else ka, "zone i is built from its own record plus the per-zone auxiliary values [i], enumerating the stored zones in order", ok, det, inst="VelocityZone")
     try:
         zn = _struct_names(ctx, L, AK + "keygroup.py", "VelocityZoneConstruct")
     except Unknown as e:
@@ -241,15 +257,10 @@ def rule_L7(ctx):
             if dotted(call.func.value) != "riff_chunks":
                 continue
             arg = call.args[0]
-            d = None
-            for n in ast.walk(arg):
-                if isinstance(n, ast.Dict):
-                    d = n
             rid = None
-            if d is not None:
-                for k, v in zip(d.keys, d.values):
-                    if isinstance(k, ast.Constant) and k.value == "riff_id":
-                        rid = norm(v).split(".")[-1]
+            for n in ast.walk(arg):
+                if isinstance(n, ast.Attribute) and norm(n.value) == "WavRiffChunkType" and n.attr in ("FMT", "SMPL", "DATA"):
+                    rid = n.attr
             order.append(rid)
         ok = order in (["FMT", "DATA"], ["FMT", "SMPL", "DATA"])
         ctx.ob("L7", p.ret_node, "chunks are appended in the order fmt, [smpl], data", ok, f"order {order}", inst=f"order:{'+'.join(str(o) for o in order)}")
@@ -474,7 +485,8 @@ def rule_L8c(ctx):
         raise AnalysisError("L8c", where(fn), "no return path")
     seen_mid = seen_last = 0
     inst_done = set()
-    whiles = [n for n in own_nodes(fn) if isinstance(n, ast.While)]
+    whiles = [n for n in own_nodes(fn) if isinstance(n, (ast.While, ast.For))
+              and any(isinstance(c, ast.Call) and norm(c.func) == "StreamOffset" for c in ast.walk(n))]
     loop = whiles[0] if whiles else None
 
     def frames_atom(t):
@@ -543,7 +555,7 @@ def rule_L8c(ctx):
             pr = _walk(ctx, fn, cfg, path)
             emitted = any(s.kind == "stmt" and "audio_tracks.append" in norm(s.ast) for s in pr.steps)
             adv = pr.env.get("cur_cue_track")
-            ok = (not emitted) or (adv is not None and adv.key() in ("next_cue_track~", "next(cue_track_iter)"))
+            ok = (not emitted) or (adv is not None and adv.key() in ("next_cue_track~", "next(cue_track_iter)", "next_cue_track"))
             ctx.ob("L8c", loop, "after emitting a track the walk continues from the next track", ok, "" if ok else f"cur_cue_track becomes {adv}", inst=f"advance:{emitted}")
     # only audio tracks, in cue order
     lc = [n for n in own_nodes(fn) if isinstance(n, ast.ListComp) and "cue_file.tracks" in norm(n)]
